@@ -138,7 +138,8 @@ func applySearchSingleQuery(colWips map[string]*ColWip, sQuery *structs.SearchQu
 	case structs.SimpleExpression:
 		rawVal, ok := colWips[sQuery.QueryInfo.ColName]
 		if !ok {
-			return false
+			// a record without the column satisfies !=, as in the query time search
+			return sQuery.ExpressionFilter.FilterOp == sutils.NotEquals
 		}
 		retVal, err := ApplySearchToExpressionFilterSimpleCsg(sQuery.QueryInfo.QValDte, sQuery.ExpressionFilter.FilterOp, rawVal.getLastRecord(), false, holderDte, sQuery.FilterIsCaseInsensitive)
 		if err != nil {
@@ -149,7 +150,7 @@ func applySearchSingleQuery(colWips map[string]*ColWip, sQuery *structs.SearchQu
 	case structs.RegexExpression:
 		rawVal, ok := colWips[sQuery.QueryInfo.ColName]
 		if !ok {
-			return false
+			return sQuery.ExpressionFilter.FilterOp == sutils.NotEquals
 		}
 		retVal, err := ApplySearchToExpressionFilterSimpleCsg(sQuery.QueryInfo.QValDte, sQuery.ExpressionFilter.FilterOp, rawVal.getLastRecord(), true, holderDte, sQuery.FilterIsCaseInsensitive)
 		if err != nil {
